@@ -28,10 +28,14 @@
    * com.wise: a row yields zero (CANCELLED; NEUTRAL within one currency), one, or two transactions
      (conversion, then payment); an incoming payment in another currency credits the target amount
      twice -- C13_wise_incoming_conversion_refuted, findings/C13-wise-incoming-conversion.md
-     (with a patch; the model parameter repaired = true is the patched code). *)
+     (with a patch; the model parameter repaired = true is the patched code).
+   * ch.swissquote: the two rows of a currency exchange become ONE transaction dated on the second
+     row; a purchase/sale changes two commodities; a dividend row is booked from Stückpreis and
+     Kosten, not from Nettobetrag; an exchange row left without partner at the end of the file is
+     dropped without a diagnostic (findings/C13-swissquote-forex-pairs.md). *)
 From Coq Require Import ZArith QArith List Bool.
 From Knut Require Import Model.Str Model.Dec Model.Date Model.Account Model.Ledger Model.Journal
-     Model.ImpCommonA Model.ImpCommonB Model.Imp.Revolut2 Model.Imp.Revolut Model.Imp.Wise
+     Model.ImpCommonA Model.ImpCommonB Model.Imp.Revolut2 Model.Imp.Revolut Model.Imp.Wise Model.Imp.Swissquote
      Spec.ImpSpecA Spec.ImpSpecB Proofs.DecValue Proofs.ImpProofsB.
 Import ListNotations.
 
@@ -143,4 +147,48 @@ Proof. repeat split; vm_compute; reflexivity. Qed.
 Print Assumptions C13_wise_incoming_conversion_refuted.
 
 Example C13_wise_row_wf : ws_wf_row w_incoming = true.
+Proof. vm_compute. reflexivity. Qed.
+
+(* ---------------------------------------------------------------- ch.swissquote *)
+(* After the header every record has 13 fields.  A statement is well-formed (sqs_wf) when its
+   rows are, exchange rows come in pairs with at most purchases/sales between the two rows of a
+   pair, and no exchange is left open at the end.  Entries (sqs_entries), in order: one per
+   purchase/sale (Symbol changes by -/+Anzahl, cash by Nettobetrag: bookings of the proceeds
+   Nettobetrag + Kosten against the trading account and of -Kosten against the fee account;
+   annotated with Symbol and Währung), one per PAIR of exchange rows (both Nettobetrag amounts
+   against the trading account, dated on the second row), one per other row (dividend kinds:
+   Stückpreis from the dividend account, Kosten to the tax account, annotated with Symbol;
+   Depotgebühren: Nettobetrag against the fee account, empty annotation; Zins: against the interest
+   account, annotated with Währung; Einzahlung/Auszahlung/Vergütung/Belastung and every unknown
+   kind: Nettobetrag against Expenses:TBD).  Exactly one transaction per entry, on the row's date,
+   consisting of the entry's bookings and changing the account by exactly the entry's changes;
+   nothing else. *)
+Theorem C13_swissquote_faithful : forall acct dividend interest tax fee trading header rows,
+  acct <> tbd_account -> acct <> dividend -> acct <> interest -> acct <> tax -> acct <> fee -> acct <> trading ->
+  sqs_wf false rows = true ->
+  let entries := sqs_entries acct dividend interest tax fee trading None rows in
+  exists ts,
+    import_swissquote acct dividend interest tax fee trading (CRec header :: map CRec rows) = MOk (map DTxn ts) /\
+    Forall2 (fun e t => books_b acct (en_fact (fst e)) (en_legs (fst e)) (snd e) t) entries ts /\
+    map t_desc ts = map build_desc (map (fun e => en_text (fst e)) entries).
+Proof. exact swissquote_faithful. Qed.
+Print Assumptions C13_swissquote_faithful.
+
+(* an exchange row without partner at the end of the statement leaves no trace: the statement
+   Einzahlung; Forex-Gutschrift imports exactly like the statement Einzahlung *)
+Definition w_sq_row (typ : str) (netto : str) : list str :=
+  [[48;57;45;49;48;45;50;48;50;48]; [48]; typ; []; []; []; [49]; [49]; [48]; [48]; netto; [48]; [67;72;70]]%Z.
+Theorem C13_swissquote_open_exchange_dropped :
+  let a := [s_Assets; [83]%Z] in let x := [s_Expenses; [88]%Z] in
+  let ein := w_sq_row [69;105;110;122;97;104;108;117;110;103]%Z [49;48;48]%Z in
+  let fx := w_sq_row [70;111;114;101;120;45;71;117;116;115;99;104;114;105;102;116]%Z [56;51;48]%Z in
+  sqs_wf_row fx = true /\ sqs_wf false [ein; fx] = false /\
+  import_swissquote a x x x x x [CRec []; CRec ein; CRec fx] = import_swissquote a x x x x x [CRec []; CRec ein].
+Proof. vm_compute. repeat split. Qed.
+Print Assumptions C13_swissquote_open_exchange_dropped.
+
+Example C13_swissquote_statement_wf :
+  sqs_wf false [w_sq_row [69;105;110;122;97;104;108;117;110;103]%Z [49;48;48]%Z;
+                w_sq_row [70;111;114;101;120;45;71;117;116;115;99;104;114;105;102;116]%Z [56;51;48]%Z;
+                w_sq_row [70;111;114;101;120;45;66;101;108;97;115;116;117;110;103]%Z [45;57;49;56]%Z] = true.
 Proof. vm_compute. reflexivity. Qed.
